@@ -628,16 +628,6 @@ Qed.
 
 (** * addSubscription *)
 
-Definition origin_splice (pre p : gpath) : list string :=
-  if String.eqb (gp_origin pre) "" && negb (String.eqb (gp_origin p) "") then [gp_origin p] else [].
-
-(** the path an entry is registered with *)
-Definition sub_query (pre p : gpath) : path :=
-  to_strings true pre ++ origin_splice pre p ++ to_strings false p.
-
-Definition entry_path (f2 : bool) (e : option gpath) : option gpath :=
-  match e with Some p => Some p | None => if f2 then Some empty_gpath else None end.
-
 Definition sub_queries (f2 : bool) (pre : gpath) (ents : list (option gpath)) : list path :=
   flat_map (fun e => match entry_path f2 e with Some p => [sub_query pre p] | None => [] end) ents.
 
@@ -676,55 +666,43 @@ Qed.
 Definition sub_inv (prefix : path) (a : sub_acc) : Prop :=
   List.length (sa_arr a) = slice_cap /\ firstn (List.length prefix) (sa_arr a) = prefix.
 
-Lemma sub_entry_spec f2 f3 c pre a e :
+Lemma sub_entry_spec f2 c pre a e :
   let prefix := to_strings true pre in
   (List.length prefix <= slice_cap)%nat ->
   sub_inv prefix a ->
-  let a' := sub_entry f2 f3 c pre (List.length prefix) a e in
+  let a' := sub_entry f2 c pre (List.length prefix) a e in
   sub_inv prefix a' /\
   sa_trie a' = match entry_path f2 e with
                | Some p => add_query (sub_query pre p) c (sa_trie a)
                | None => sa_trie a
                end /\
-  (f3 = true ->
-   sa_refs a' = sa_refs a ++ match entry_path f2 e with
-                             | Some p => [Own (sub_query pre p)]
-                             | None => []
-                             end) /\
   match entry_path f2 e with
   | Some p => exists s, sa_refs a' = sa_refs a ++ [s] /\ qref_val (sa_arr a') s = sub_query pre p
   | None => a' = a
   end.
 Proof.
-  intros prefix Hk [Hlen Hpre] a'. subst a'. unfold sub_entry. fold (entry_path f2 e).
+  intros prefix Hk [Hlen Hpre] a'. subst a'. unfold sub_entry.
   destruct (entry_path f2 e) as [p|].
-  2:{ repeat split; auto. intros _. now rewrite app_nil_r. }
+  2:{ repeat split; auto. }
   set (k := List.length prefix) in *.
-  set (start := if f3 then Own (firstn k (sa_arr a)) else Shared k).
-  assert (Hstart_ok : qref_ok start) by (subst start; destruct f3; cbn; auto).
-  assert (Hstart_val : qref_val (sa_arr a) start = prefix) by (subst start; destruct f3; cbn; auto).
-  assert (Hstart_base : (k <= qref_base start)%nat) by (subst start; destruct f3; cbn; auto).
   set (r1 := if String.eqb (gp_origin pre) "" && negb (String.eqb (gp_origin p) "")
-             then go_append (sa_arr a) start [gp_origin p] else (sa_arr a, start)).
+             then go_append (sa_arr a) (Shared k) [gp_origin p] else (sa_arr a, Shared k)).
   assert (H1 : qref_val (fst r1) (snd r1) = prefix ++ origin_splice pre p /\
                List.length (fst r1) = slice_cap /\ qref_ok (snd r1) /\
-               (k <= qref_base (snd r1))%nat /\ firstn k (fst r1) = prefix /\
-               (f3 = true -> snd r1 = Own (prefix ++ origin_splice pre p))).
+               (k <= qref_base (snd r1))%nat /\ firstn k (fst r1) = prefix).
   { subst r1. unfold origin_splice.
     destruct (String.eqb (gp_origin pre) "" && negb (String.eqb (gp_origin p) "")).
-    - destruct (go_append_spec (sa_arr a) start [gp_origin p] Hlen Hstart_ok)
+    - destruct (go_append_spec (sa_arr a) (Shared k) [gp_origin p] Hlen Hk)
         as (Hv & Hl & Hok & Hb & Hf).
-      rewrite Hv, Hstart_val. repeat split; auto; [lia|rewrite Hf by lia; exact Hpre|].
-      intros ->. subst start. unfold go_append. cbn [snd]. now rewrite Hpre.
-    - cbn [fst snd]. rewrite app_nil_r. repeat split; auto.
-      intros ->. subst start. cbn iota. now rewrite Hpre. }
-  destruct H1 as (Hv1 & Hl1 & Hok1 & Hb1 & Hf1 & Hown1).
+      rewrite Hv. cbn [qref_val]. rewrite Hpre. repeat split; auto.
+      rewrite Hf by (cbn; lia). exact Hpre.
+    - cbn [fst snd qref_val]. rewrite app_nil_r. repeat split; auto. }
+  destruct H1 as (Hv1 & Hl1 & Hok1 & Hb1 & Hf1).
   destruct (go_append_spec (fst r1) (snd r1) (to_strings false p) Hl1 Hok1)
     as (Hv2 & Hl2 & Hok2 & Hb2 & Hf2).
   cbn [sa_trie sa_arr sa_refs]. rewrite Hv2, Hv1, <- app_assoc. fold (sub_query pre p).
   repeat split; auto.
   - rewrite Hf2 by lia. exact Hf1.
-  - intros Hf3. rewrite (Hown1 Hf3). cbn. unfold sub_query. now rewrite app_assoc.
   - eexists. split; [reflexivity|]. rewrite Hv2, Hv1, <- app_assoc. reflexivity.
 Qed.
 
@@ -736,26 +714,37 @@ Proof.
   - unfold pad. rewrite firstn_app, firstn_all, Nat.sub_diag. cbn. now rewrite app_nil_r.
 Qed.
 
-Lemma sub_fold_spec f2 f3 c pre ents : forall a,
+Lemma sub_queries_cons f2 pre e ents :
+  sub_queries f2 pre (e :: ents) =
+  match entry_path f2 e with Some p => [sub_query pre p] | None => [] end ++ sub_queries f2 pre ents.
+Proof. reflexivity. Qed.
+
+Lemma sub_fold_spec f2 c pre ents : forall a,
   let prefix := to_strings true pre in
   (List.length prefix <= slice_cap)%nat ->
   sub_inv prefix a ->
-  let a' := fold_left (sub_entry f2 f3 c pre (List.length prefix)) ents a in
-  sa_trie a' = fold_left (fun t q => add_query q c t) (sub_queries f2 pre ents) (sa_trie a) /\
-  (f3 = true -> sa_refs a' = sa_refs a ++ map Own (sub_queries f2 pre ents)).
+  let a' := fold_left (sub_entry f2 c pre (List.length prefix)) ents a in
+  sa_trie a' = fold_left (fun t q => add_query q c t) (sub_queries f2 pre ents) (sa_trie a).
 Proof.
   induction ents as [|e ents IH]; intros a prefix Hk Hinv.
-  - cbn. split; [reflexivity|]. intros _. now rewrite app_nil_r.
+  - reflexivity.
   - cbn [fold_left]. subst prefix. cbn zeta in *.
-    destruct (sub_entry_spec f2 f3 c pre a e Hk Hinv) as (Hinv' & Ht & Hr & _).
-    destruct (IH _ Hk Hinv') as [IHt IHr].
-    assert (Hq : sub_queries f2 pre (e :: ents) =
-                 match entry_path f2 e with Some p => [sub_query pre p] | None => [] end
-                 ++ sub_queries f2 pre ents) by reflexivity.
-    rewrite Hq. split.
-    + rewrite IHt, Ht, fold_left_app. destruct (entry_path f2 e); reflexivity.
-    + intros Hf3. rewrite (IHr Hf3), (Hr Hf3), <- app_assoc, map_app. f_equal.
-      destruct (entry_path f2 e); reflexivity.
+    destruct (sub_entry_spec f2 c pre a e Hk Hinv) as (Hinv' & Ht & _).
+    rewrite (IH _ Hk Hinv'), sub_queries_cons, Ht, fold_left_app.
+    destruct (entry_path f2 e); reflexivity.
+Qed.
+
+(** the code since 434b003 *)
+Lemma own_fold_spec f2 c pre ents : forall a,
+  fold_left (sub_entry_own f2 c pre) ents a =
+  (fold_left (fun t q => add_query q c t) (sub_queries f2 pre ents) (fst a),
+   snd a ++ sub_queries f2 pre ents).
+Proof.
+  induction ents as [|e ents IH]; intros [t qs].
+  - cbn. now rewrite app_nil_r.
+  - cbn [fold_left]. rewrite IH, sub_queries_cons. unfold sub_entry_own.
+    destruct (entry_path f2 e); cbn [fst snd]; [|reflexivity].
+    cbn [app fold_left]. now rewrite <- app_assoc.
 Qed.
 
 (** registration is right whatever the aliasing *)
@@ -763,26 +752,26 @@ Lemma add_subscription_trie f2 f3 b c pre ents b' qs :
   add_subscription_gen f2 f3 b c pre ents = Some (b', qs) ->
   b' = fold_left (fun t q => add_query q c t) (sub_queries f2 pre ents) b.
 Proof.
-  unfold add_subscription_gen.
-  destruct (List.length (to_strings true pre) <=? slice_cap)%nat eqn:E; [|discriminate].
-  apply Nat.leb_le in E. intros H. inversion H; subst; clear H.
-  assert (Hinv : sub_inv (to_strings true pre) (SubAcc b (pad (to_strings true pre)) [])).
-  { destruct (pad_inv _ E) as [H1 H2]. split; assumption. }
-  exact (proj1 (sub_fold_spec f2 f3 c pre ents _ E Hinv)).
+  unfold add_subscription_gen. destruct f3.
+  - rewrite own_fold_spec. intros H. inversion H; subst. reflexivity.
+  - destruct (List.length (to_strings true pre) <=? slice_cap)%nat eqn:E; [|discriminate].
+    apply Nat.leb_le in E. intros H. inversion H; subst; clear H.
+    assert (Hinv : sub_inv (to_strings true pre) (SubAcc b (pad (to_strings true pre)) [])).
+    { destruct (pad_inv _ E) as [H1 H2]. split; assumption. }
+    exact (sub_fold_spec f2 c pre ents _ E Hinv).
 Qed.
 
 (** with the slices copied the closure removes exactly what was registered *)
 Lemma add_subscription_closure f2 b c pre ents b' qs :
   add_subscription_gen f2 true b c pre ents = Some (b', qs) -> qs = sub_queries f2 pre ents.
 Proof.
-  unfold add_subscription_gen.
-  destruct (List.length (to_strings true pre) <=? slice_cap)%nat eqn:E; [|discriminate].
-  apply Nat.leb_le in E. intros H. inversion H; subst; clear H.
-  assert (Hinv : sub_inv (to_strings true pre) (SubAcc b (pad (to_strings true pre)) [])).
-  { destruct (pad_inv _ E) as [H1 H2]. split; assumption. }
-  rewrite (proj2 (sub_fold_spec f2 true c pre ents _ E Hinv) eq_refl). cbn.
-  rewrite map_map. cbn. apply map_id.
+  unfold add_subscription_gen. rewrite own_fold_spec. intros H. inversion H; subst. reflexivity.
 Qed.
+
+(** since 434b003 the function is defined for every prefix *)
+Lemma add_subscription_total f2 b c pre ents :
+  exists b' qs, add_subscription_gen f2 true b c pre ents = Some (b', qs).
+Proof. unfold add_subscription_gen. rewrite own_fold_spec. eauto. Qed.
 
 Lemma wf_fold_add qs c : forall b, wf b -> wf (fold_left (fun t q => add_query q c t) qs b).
 Proof. induction qs as [|q qs IH]; intros b H; cbn; [assumption|]. apply IH. now apply wf_add_query. Qed.
@@ -872,13 +861,14 @@ Qed.
 Lemma add_subscription_closure_single f2 f3 b c pre e b' qs :
   add_subscription_gen f2 f3 b c pre [e] = Some (b', qs) -> qs = sub_queries f2 pre [e].
 Proof.
+  destruct f3; [apply add_subscription_closure|].
   unfold add_subscription_gen.
   destruct (List.length (to_strings true pre) <=? slice_cap)%nat eqn:E; [|discriminate].
   apply Nat.leb_le in E. intros H. inversion H; subst; clear H.
   assert (Hinv : sub_inv (to_strings true pre) (SubAcc b (pad (to_strings true pre)) [])).
   { destruct (pad_inv _ E) as [H1 H2]. split; assumption. }
   cbn [fold_left].
-  destruct (sub_entry_spec f2 f3 c pre _ e E Hinv) as (_ & _ & _ & Hs).
+  destruct (sub_entry_spec f2 c pre _ e E Hinv) as (_ & _ & Hs).
   unfold sub_queries. cbn [flat_map]. rewrite app_nil_r.
   destruct (entry_path f2 e) as [p|].
   - destruct Hs as (s & Hr & Hv). rewrite Hr. cbn [sa_refs app map]. now rewrite Hv.
